@@ -89,8 +89,19 @@ func c06Run(w *verifrt.World, tier Tier) *RunResult {
 	cfg.RespAccess = t.Draw(2) == 0
 	cfg.UploadDir = simos.Root + "/upload"
 	cfg.Lines = append(cfg.Lines, "SecDataset ds1 `\nevil\nfoo\n`")
-	if t.Draw(2) == 0 {
-		cfg.Lines = append(cfg.Lines, "SecAuditEngine On", "SecAuditLogType Serial", "SecAuditLog "+simos.Root+"/audit/audit.log", "SecAuditLogParts ABHKZ", "SecAuditLogFormat JSON")
+	auditWriter := pick(t, []string{"", "Serial", "Concurrent", "Serial"})
+	if auditWriter != "" {
+		cfg.Lines = append(cfg.Lines, "SecAuditEngine On", "SecAuditLogType "+auditWriter, "SecAuditLog "+simos.Root+"/audit/audit.log", "SecAuditLogStorageDir "+simos.Root+"/audit/data",
+			"SecAuditLogParts ABHKZ", "SecAuditLogFormat JSON")
+		// the audit engine / parts must stay as configured for the file check below
+		cfg.Rules = filterRules(cfg.Rules, func(r *RuleSpec) bool {
+			for _, e := range r.Extra {
+				if strings.HasPrefix(e, "ctl:auditEngine") || strings.HasPrefix(e, "ctl:ruleEngine=Off") {
+					return false
+				}
+			}
+			return true
+		})
 	}
 	text := cfg.Text() + strings.Join(c06Special(t), "\n") + "\n"
 	sc := &c06Scenario{Config: text}
@@ -276,7 +287,31 @@ func c06Run(w *verifrt.World, tier Tier) *RunResult {
 		}
 	}
 	shared.Close()
+	if auditWriter != "" && len(res.Viol) == 0 {
+		// every transaction that ran ProcessLogging must be in the shared audit
+		// output exactly once, whole, with the concurrent writer's index entries
+		// not interleaved
+		var ids []string
+		for _, scripts := range sc.Tasks {
+			for _, sp := range scripts {
+				if !sp.NoLogging && sp.StopAfter < 0 {
+					ids = append(ids, sp.ID)
+				}
+			}
+		}
+		auditFilesCheck(res, "C06", auditWriter, simos.Disk(), ids, nil, "("+sched+")")
+	}
 	return res
+}
+
+func filterRules(rs []RuleSpec, keep func(r *RuleSpec) bool) []RuleSpec {
+	var out []RuleSpec
+	for i := range rs {
+		if keep(&rs[i]) {
+			out = append(out, rs[i])
+		}
+	}
+	return out
 }
 
 func firstN(tr []verifrt.SwitchRec, n int) []verifrt.SwitchRec {
